@@ -174,7 +174,7 @@ let c18_malformed = [
   ("xml", "<val><id>x</id>"); ("xml", "<a></b>"); ("xml", "<val><id>1</id></vals>"); ("xml", "<val a=b><id>1</id></val>");
   ("xml", "<val><name>&nbsp;</name></val>"); ("xml", "<val><name>a & b</name></val>"); ("xml", "<val><id>1</ID></val>");
   ("xml", "<val><id>1</id><name>x</val></name>"); ("xml", "<val checked><id>1</id></val>"); ("xml", "{"); ("xml", "[1,2");
-  ("form", "id=abc&ok=maybe"); ("query", "id=abc&ok=maybe") ]
+  ("form", "id=abc&ok=maybe"); ("query", "id=abc&ok=maybe"); ("form", "id=&ok=true"); ("query", "id=&name=x"); ("form", "score=") ]
 let c18_model = function
   | L [A "src"; m; ct] -> L [A "src"; A (ssource (auto_source (str m) (str ct)))]
   | L (A _ :: _) -> L [A "judge-only"]
@@ -195,7 +195,7 @@ let c18_judge c obs =
     if r = "panic" then "bad malformed-input-panics"
     else if r = "ok" && List.mem (f, ascii_of (str body)) c18_malformed then "bad malformed-input-accepted format=" ^ f ^ " body=" ^ ascii_of (str body)
     else "ok"
-  | L [A "val"; A en; A valid; A f], L [A "val"; A r] ->
+  | L (A "val" :: A en :: A valid :: A f :: _), L [A "val"; A r] ->
     if r = "panic" then "bad validation-panics"
     else if en = "t" && valid = "f" && r = "ok" then "bad bind-succeeds-on-invalid-struct format=" ^ f
     else if (en = "f" || valid = "t") && r <> "ok" then "bad valid-input-rejected format=" ^ f
